@@ -133,6 +133,10 @@ class Model:
         self._acc(it)
         frames = list(self.frames_emitted)
         self.deliver(mgr, module, frames)
+        # the state is re-created from values for the next step: aliasing between the two sets would be lost there, so it is
+        # reported here (`self._subscribed_types = self._paused_types = set()` makes every later change of one change the other)
+        if raised is None and client.get("_subscribed_types") is client.get("_paused_types"):
+            raised = "SetsAliased(_subscribed_types and _paused_types are now one object: every later change of one is a change of the other)"
         return self.freeze(client, mgr, module), raised, frames
 
     def apply_context(self, state, ctxname, arg):
